@@ -12,7 +12,7 @@ pub fn props() -> Vec<Prop> {
         run: c20,
         tools: None,
         rule: "for every reference state of the C01 sweep (names {a,b}, depth 2, up to a state cap), every path of the namespace (plus '/', an absent path and the empty path) and each of the 19 macros with data/target variants (equal, different, suffix-only-equal): the macro runs under catch_unwind on Memfs, on Vfs::Memfs and (in-domain states) on a Stdfs sandbox materialised with std::fs; for checking macros the panic/no-panic outcome must equal the documented predicate evaluated on the reference tree and the message must name the macro and the path; for acting macros no-panic must coincide with the documented postcondition evaluated on the hook snapshot / disk observer after the call. testing::capture_panic is exercised separately (nested and concurrent captures). distinct_nontrivial = distinct (macro, backend, argument class, variant, expected outcome) tuples. Later addition: remove / remove_all are also run on Stdfs states with dangling links and links to links (their postcondition is read off the disk observation alone).",
-        assumptions: &["predicate / postcondition of each macro is taken from its own doc comment including the documented exemptions (mkfile/symlink: 'if it exists no change is made'; remove: its three listed failures)"],
+        assumptions: &["predicate / postcondition of each macro is taken from its own doc comment including the documented exemptions (mkfile/symlink: 'if it exists no change is made'; remove: its three listed failures)", "'a message naming the path' is read as: the absolute path the argument resolves to - what every failure branch of every macro prints on the pinned code - and the argument as given only when it does not resolve at all"],
         shards_quick: 8,
         shards_thorough: 16,
         budget_quick_s: 240,
@@ -264,7 +264,7 @@ fn judge(backend: &str, c: &Case, pre: &NTree, post: &NTree, changed: bool, a: O
                     },
                     _ => false,
                 };
-                let names_path = read_value || (!shown_abs.is_empty() && msg.contains(&shown_abs)) || msg.contains(&format!("{:?}", c.p)) || msg.contains(&format!("{:?}", c.q));
+                let names_path = read_value || (!shown_abs.is_empty() && msg.contains(&shown_abs)) || (shown_abs.is_empty() && msg.contains(&format!("{:?}", c.p))) || msg.contains(&format!("{:?}", c.q));
                 if !msg.contains(name) {
                     rep.violation(&format!("macro:{}:message-names-macro→other-name", name), wit("panic message contains the macro's own name"));
                 } else if !names_path {
